@@ -118,13 +118,6 @@ Definition in_node_functions (prog : program) (t : thread) : bool :=
 Definition is_probe (a : action) : bool :=
   match a with Load | ExitIfBusy => true | _ => false end.
 
-(** index of the first action that is not a mere look at the word ([Load]/[ExitIfBusy]) *)
-Fixpoint acq_index (prog : program) : nat :=
-  match prog with
-  | a :: prog' => if is_probe a then S (acq_index prog') else 0%nat
-  | [] => 0%nat
-  end.
-
 (** The first action that can let a thread pass -- the first one that is not a mere look
     at the word -- is a compare-and-swap from 0 to a non-zero value.  In particular
     nothing writes [status], and no [Work]/[Handlers] happens, before it. *)
